@@ -143,3 +143,14 @@ package phase5
 //@     invariant[|C05] forall i int :: 0 <= i && i < c ==> splineEnds(routes[i]) && allocatedArr(routes[i].Points) && arr(routes[i].Points) != arr(e.Points)
 //@     invariant[|C05] q >= 1 ==> e.Points[0][0] == ctrls[len(ctrls)-1].p3.X && e.Points[0][1] == ctrls[len(ctrls)-1].p3.Y
 //@     invariant[|C05] q >= 1 ==> e.Points[len(e.Points)-1][0] == ctrls[len(ctrls)-q].p0.X && e.Points[len(e.Points)-1][1] == ctrls[len(ctrls)-q].p0.Y
+
+// ---------------------------------------------------------------------------
+// preconditions of the routing helpers (C01): what their index expressions and sanity panics rely on
+//@ func nonTerminalPoint
+//@   requires n != nil && n.IsVirtual
+//@ func rectBetweenLayers
+//@   requires l1 != nil && l2 != nil && len(l1.Nodes) > 0 && len(l2.Nodes) > 0
+//@ func rectVirtualNode
+//@   requires vn != nil && vl != nil && len(vl.Nodes) >= 2 && 0 <= vn.LayerPos && vn.LayerPos < len(vl.Nodes)
+//@ func flatPolyline
+//@   requires r.Edge != nil && r.From != nil && r.To != nil && len(r.ns) >= 1 && r.ns[0] != nil && r.ns[len(r.ns)-1] != nil
